@@ -7,3 +7,5 @@ import BV.C16.AddressLemmas
 import BV.C16.DecodeLemmas
 import BV.C16.ScriptLemmas
 import BV.C16.ScriptRoundtrip
+import BV.C16.KeysLemmas
+import BV.C16.TaprootLemmas
